@@ -182,6 +182,28 @@ def device_sources(config, wrap=('devconn', 'srpc', 'proto'), exclude=()):
         srcs += [os.path.join(REPO, 'src', 'user', x) for x in ('mqtt.c', 'supla_esp_mqtt.c', 'supla_esp_cfgmode_mqtt_html.c')]
     return srcs
 
+def prune_cache(limit=2 << 30, target=1 << 30, min_age=1800):
+    """keep the object/binary cache bounded (LRU by mtime; entries are touched on use; nothing younger than min_age
+    seconds is removed so that concurrent runs never lose what they are about to use)"""
+    try:
+        ents = []
+        for sub in ('obj', 'bin'):
+            d = os.path.join(CACHE, sub)
+            if not os.path.isdir(d): continue
+            with os.scandir(d) as it:
+                for e in it:
+                    try: st = e.stat(); ents.append((st.st_mtime, st.st_size, e.path))
+                    except OSError: pass
+        total = sum(x[1] for x in ents)
+        if total <= limit: return
+        now = time.time()
+        for mt, sz, path in sorted(ents):
+            if total <= target or now - mt < min_age: break
+            try: os.remove(path); total -= sz
+            except OSError: pass
+    except Exception:
+        pass
+
 def build_c(name, drv_src, config='dev', extra_srcs=(), extra_flags=(), wrap=('devconn', 'srpc', 'proto'),
             exclude=(), sources=None, cc='clang', libs=()):
     """compile the driver + device sources; returns (exe, '') or (None, log)"""
@@ -197,6 +219,9 @@ def build_c(name, drv_src, config='dev', extra_srcs=(), extra_flags=(), wrap=('d
         objs.append(o)
         if not os.path.exists(o):
             jobs.append((s, o))
+        else:
+            try: os.utime(o)
+            except OSError: pass
     def comp(job):
         s, o = job
         tmp = o + '.%d.tmp' % os.getpid()
@@ -215,6 +240,10 @@ def build_c(name, drv_src, config='dev', extra_srcs=(), extra_flags=(), wrap=('d
         rc, out, err = sh([cc] + SAN + objs + ['-o', tmp, '-lm'] + list(libs), timeout=600)
         if rc != 0: return None, 'link failed:\n' + err[-4000:]
         os.replace(tmp, exe)
+    else:
+        try: os.utime(exe)
+        except OSError: pass
+    prune_cache()
     return exe, ''
 
 # ------------------------------------------------------------------------------------------
